@@ -347,6 +347,32 @@ func MetaMutations(s *spec.Spec) []*Mutation {
 			}
 		}})
 	}
+	// inheritance cycles through two object types: Extend/Extend, Reference/Reference and the two mixed forms; with a
+	// required name that no type of the cycle defines, every lookup of that name walks the bases (must end)
+	var plain []*spec.UserType
+	for _, t := range objs {
+		if t.Kind == "type" && t.Extend == "" && t.Reference == "" {
+			plain = append(plain, t)
+		}
+	}
+	if len(plain) >= 2 {
+		a, b := plain[0], plain[1]
+		for _, form := range [][2]string{{"extend", "extend"}, {"reference", "reference"}, {"extend", "reference"}, {"reference", "extend"}} {
+			form := form
+			out = append(out, &Mutation{Class: "inheritance-cycle:" + form[0] + "-" + form[1], Name: a.Name, Site: a.Name + " and " + b.Name, Benign: true, Apply: func() {
+				link := func(t *spec.UserType, how, base string) {
+					if how == "extend" {
+						t.Extend = base
+					} else {
+						t.Reference = base
+					}
+				}
+				link(a, form[0], b.Name)
+				link(b, form[1], a.Name)
+				a.Def.Required = append(a.Def.Required, "no_such_attribute_anywhere")
+			}})
+		}
+	}
 	for _, k := range attrMetaKeys {
 		k := k
 		out = append(out, &Mutation{Class: "meta-key-only:attribute:" + k, Name: k, Site: "first attribute of every object user type", Benign: true, Apply: func() {
